@@ -1,15 +1,27 @@
 (* Translation tie for the type selection of the CLI (C16).
    [ShootGen.CliSelectGen] is written on every run by harness/go/cmd/go2gallina
    from the CURRENT text of /repo/internal/shoot/generatorbase.go
-   ((GeneratorBase).confirmTypes) and common.go (Contains, at strings); this
-   file proves them equal to [confirm_specified] / the type-list choice of
-   [run_loaded] and to [mem] of Model/Cli.v (owned by the C16 check: imported,
+   ((GeneratorBase).confirmTypes, TestFile) and common.go (Contains, at strings);
+   this file proves them equal to [confirm_specified] / the type-list choice of
+   [run_loaded], to [test_file] and to [mem] of Model/Cli.v (owned by the C16 check: imported,
    not edited).  Primitive table and store discipline: Bridge/CliSelPrims.v. *)
 From Coq Require Import List ZArith Bool String.
-From Shoot Require Import Base.Str Model.Cli Proofs.CliProofs Bridge.GoPrims Bridge.CliSelPrims.
+From Shoot Require Import Base.Str Model.Cli Model.CliSpec Proofs.CliProofs Bridge.GoPrims Bridge.CliSelPrims.
 From ShootGen Require Import CliSelectGen.
 Import ListNotations.
 Local Open Scope string_scope.
+
+(* destruct the leftmost atom of a boolean condition *)
+Ltac atom b :=
+  lazymatch b with
+  | negb ?x => atom x
+  | andb ?x ?y => first [atom x | atom y]
+  | orb ?x ?y => first [atom x | atom y]
+  | (if ?c then _ else _) => atom c
+  | true => fail
+  | false => fail
+  | _ => destruct b eqn:?
+  end.
 
 (* ---- Contains(slice, val) on strings = mem *)
 Lemma Contains_loop_is_model : forall l slice v (w : sworld),
@@ -46,9 +58,12 @@ Proof.
   intros fl l sp ty. induction l as [|T l IH]; intros fmap; [reflexivity|].
   cbn [confirm_specified confirmTypes_loop1].
   cbv beta iota zeta delta [sw_file sw_fmap sw_types sw_specified fmap_set].
-  destruct (String.eqb (fl_file fl) ""); [apply IH|].
-  destruct (String.eqb (fl_file fl) (get_go_file o p T)); cbv beta iota delta [negb]; [apply IH|].
-  eexists. reflexivity.
+  (* comparisons with -file: the flag on the left, as the model writes them *)
+  repeat match goal with |- context [String.eqb ?a (fl_file fl)] =>
+           lazymatch a with fl_file fl => fail | _ => rewrite (String.eqb_sym a (fl_file fl)) end end.
+  repeat (match goal with |- context [if ?b then _ else _] => atom b end;
+          cbv beta iota delta [negb andb orb]);
+    first [apply IH | eexists; reflexivity].
 Qed.
 
 (* an explicit -type list: the file-name map of [confirm_specified], or the fatal diagnostic *)
@@ -122,11 +137,32 @@ Proof.
   destruct (forallb (fun T => decl_file p T =? fl_file fl) (fl_types fl)); exact H.
 Qed.
 
+(* ---- TestFile: with -file empty every file passes; otherwise the file whose BASE name is the flag *)
+Theorem TestFile_is_model : forall fl fmap f full, path_base full = f_name f ->
+  TestFile (Some full) (world_of fl fmap) = (Returned (test_file fl f), world_of fl fmap).
+Proof.
+  intros fl fmap f full B. unfold TestFile, test_file, world_of, fset_file, file_pos, tok_name.
+  cbv beta iota zeta delta [sw_file is_nil]. rewrite B.
+  rewrite (String.eqb_sym (f_name f) (fl_file fl)).
+  repeat (match goal with |- context [if ?b then _ else _] => atom b end;
+          cbv beta iota delta [negb andb orb]); reflexivity.
+Qed.
+
+(* a file without a position (no package clause) is the requested file only when no file is requested *)
+Theorem TestFile_no_position : forall fl fmap,
+  TestFile None (world_of fl fmap) = (Returned (fl_file fl =? ""), world_of fl fmap).
+Proof.
+  intros fl fmap. unfold TestFile, world_of, fset_file, file_pos.
+  cbv beta iota zeta delta [sw_file is_nil]. destruct (fl_file fl =? ""); reflexivity.
+Qed.
+
 End Bridge.
 
 Print Assumptions Contains_is_model.
 Print Assumptions confirmTypes_specified_is_model.
 Print Assumptions confirmTypes_listed_is_model.
 Print Assumptions confirmTypes_is_run_loaded_choice.
+Print Assumptions TestFile_is_model.
+Print Assumptions TestFile_no_position.
 Print Assumptions C16_confirm_nofile_src.
 Print Assumptions C16_confirm_file_src.
